@@ -5,6 +5,10 @@ use std::io::{self, BufRead, Write};
 mod util;
 mod dom_parse;
 mod dom_hdr;
+mod dom_date;
+mod dom_pool;
+mod dom_route;
+mod interpose;
 
 fn main() {
     // panics inside the code under test are outcomes, not crashes; keep stderr quiet
@@ -28,6 +32,10 @@ fn main() {
             "REQ" => dom_parse::req(rest),
             "RESP" => dom_parse::resp(rest),
             "HDR" => dom_hdr::hdr(rest),
+            "DATE" => dom_date::date(rest),
+            "DATECACHE" => dom_date::date_cache(rest),
+            "POOL" => dom_pool::pool(rest),
+            "ROUTE" => dom_route::route(rest),
             _ => "BAD-DOMAIN".to_string(),
         };
         let _ = writeln!(out, "{}", ans);
